@@ -33,7 +33,7 @@ def run_positive(c, cases, docs):
             rp = c.replay_file("legal_sequence_rejected.rs", open(src).read())
             c.violation("legal-rejected", "a batch of legal builder call sequences does not compile (docs=%s): %s" % (docs, bad[:400]), rp)
             return
-    got = {}
+    got, gotp = {}, {}
     for (src, exe) in jobs:
         p = rsprog.run_prog(exe)
         if p.returncode != 0:
@@ -41,8 +41,18 @@ def run_positive(c, cases, docs):
             c.violation("panic", "a legal builder call sequence panicked: %s" % p.stderr[-300:], rp); return
         for l in p.stdout.splitlines():
             o = json.loads(l); got[o["i"]] = o["res"]
+            if "pres" in o: gotp[o["i"]] = o["pres"]
         vlib.discard(exe)
     c.add("programs", len(jobs)); c.add("evaluations", len(cases)); c.add("traces_validated_against_impl", len(cases))
+    def blank(v):      # type references blanked: the portable form carries ids
+        if isinstance(v, dict): return {k: (["*"] * len(x) if isinstance(x, list) else "*") if k == "ty" else blank(x) for k, x in v.items()}
+        if isinstance(v, list): return [blank(x) for x in v]
+        return v
+    badp = [(i, cs) for i, cs in enumerate(cases) if i in gotp and gotp[i] != blank(cs["res"])]
+    if badp:
+        i, cs = badp[0]
+        rp = c.replay_file("builder_portable_mismatch_%s.json" % ("docs" if docs else "nodocs"), [{"rust": B.expr(x), "case": x, "portable": gotp.get(j)} for j, x in badp[:30]])
+        c.violation("builder-portable", "%d legal call sequences lose something when the built value is converted to the portable form (docs=%s); first: %s => %s, expected %s" % (len(badp), docs, B.expr(cs), json.dumps(gotp.get(i))[:200], json.dumps(blank(cs["res"]))[:200]), rp)
     bad = [(i, cs) for i, cs in enumerate(cases) if got.get(i) != cs["res"]]
     c.sample({"sequence": B.expr(cases[len(cases) // 2]), "expected": cases[len(cases) // 2]["res"]})
     if bad:
